@@ -212,11 +212,14 @@ def RefPoly.relCongruence (p : RefPoly) (e : LinExpr) (m : Int) : Bool × Bool :
       (!inside, false)
   | _, _ => (false, false)   -- unbounded in some direction: multiples of m are met, never included
 
-/-- the recession cone is trivial (for a non-empty set: bounded) -/
+/-- neither `sup x_i` nor `inf x_i` over the set is infinite -/
+def RefPoly.coordBounded (p : RefPoly) (i : Nat) : Bool :=
+  (match supB p.n (unitRow i 1) 0 p.cs with | .unbounded => false | _ => true) &&
+  (match supB p.n (unitRow i (-1)) 0 p.cs with | .unbounded => false | _ => true)
+
+/-- the set is empty or every coordinate is bounded on it (`C01.query_is_bounded_iff`) -/
 def RefPoly.isBounded (p : RefPoly) : Bool :=
-  p.isEmpty ||
-    let hom := (relax p.cs).map fun c => { c with k := 0 }
-    (List.range p.n).all fun i => subsetB p.n hom (eqRows (unitRow i 1) 0)
+  p.isEmpty || (List.range p.n).all fun i => p.coordBounded i
 
 def RefPoly.constrains (p : RefPoly) (v : Nat) : Bool :=
   p.isEmpty || !(subsetB p.n (p.unconstrain [v]).cs p.cs)
@@ -229,27 +232,33 @@ def RefPoly.hasPoint (p : RefPoly) (num : List Int) (den : Int) : Bool :=
 def RefPoly.hasRay (p : RefPoly) (dir : List Int) : Bool :=
   (relax p.cs).all fun c => ({ c with k := 0 } : Con).holdsAt dir 1
 
-/-! ### rank / affine dimension (Gaussian elimination over ℚ; executable only) -/
+/-! ### affine dimension: Gaussian elimination on the implicit equalities
+(total, structural on the list of variables; proved in `PPLV/Lin/QueryDim.lean`) -/
 
-def ratRow (c : Con) (n : Nat) : List Rat := (padTo n c.coeffs).map (fun (a : Int) => (a : Rat)) ++ [(c.k : Rat)]
+/-- cross-multiplied elimination of variable `j` from the equality row `c` with the pivot row
+    `piv` (`piv.at j ≠ 0`): `(piv.at j)·c − (c.at j)·piv`, whose coefficient at `j` is zero -/
+def elimEq (j : Nat) (piv c : Con) : Con :=
+  { coeffs := lincomb (piv.at j) (-(c.at j)) c.coeffs piv.coeffs,
+    k := piv.at j * c.k - c.at j * piv.k, strict := false }
 
-partial def rankRows (rows : List (List Rat)) (col ncols : Nat) : Nat :=
-  if col ≥ ncols then 0 else
-  match rows.find? (fun r => r.getD col 0 != 0) with
-  | none => rankRows rows (col + 1) ncols
-  | some piv =>
-    let pv := piv.getD col 0
-    let rest := (rows.filter (fun r => r != piv)).map fun r =>
-      let f := r.getD col 0 / pv
-      List.zipWith (fun a b => a - f * b) r piv
-    1 + rankRows rest (col + 1) ncols
+/-- number of free (non-pivot) variables among `vars` of the linear system `E` (every row read
+    as the equality `coeffs·x + k = 0`): one column at a time, pivot on a row mentioning the
+    variable and eliminate it from every row (the pivot row itself becomes the zero row) -/
+def eqFree : List Nat → List Con → Nat
+  | [], _ => 0
+  | j :: js, E =>
+    match E.find? (fun c => c.at j != 0) with
+    | none => 1 + eqFree js E
+    | some piv => eqFree js (E.map (elimEq j piv))
+
+/-- the implicit equalities: non-strict rows `c` such that `-c` is implied too -/
+def RefPoly.implicitEqs (p : RefPoly) : List Con :=
+  p.cs.filter fun c =>
+    !c.strict && implies p.n p.cs ({ c with coeffs := c.coeffs.map (- ·), k := -c.k, strict := false })
 
 /-- affine dimension: `n − rank` of the implicit equalities (0 for the empty set) -/
 def RefPoly.affineDim (p : RefPoly) : Nat :=
-  if p.isEmpty then 0 else
-    let impl := p.cs.filter fun c =>
-      !c.strict && implies p.n p.cs ({ c with coeffs := c.coeffs.map (- ·), k := -c.k, strict := false })
-    p.n - rankRows (impl.map (ratRow · p.n)) 0 p.n
+  if p.isEmpty then 0 else eqFree (List.range p.n) p.implicitEqs
 
 end PPLV.Lin
 
